@@ -3057,6 +3057,20 @@ foamTagFormat(Foam foam)
 			if (format == 0) break;
 		}
 	}
+	else if (tag == FOAM_TR || tag == FOAM_Prog) {
+		/*
+		 * N-ary nodes with an integer field: the field is written in
+		 * the node's width, so the width must hold it as well as the
+		 * argument count (a return format above 255 in a short Prog),
+		 * and an immediate format has no room for it at all.
+		 */
+		String	argf = foamInfo(tag).argf;
+		si = argc;
+		for (i = 0; i < argc && argf[i] && argf[i] != '*'; i++)
+			if (argf[i] == 'i' && foamArgv(foam)[i].data > si)
+				si = foamArgv(foam)[i].data;
+		format = FOAM_FORMAT_FOR(si);
+	}
 	else if (tag < FOAM_INDEX_LIMIT || isNary) {
 		si = isNary ? argc : foamArgv(foam)[0].data;
 
